@@ -36,6 +36,8 @@ def generate(seed, scratch):
                 _dot_includes(world["files"][p]["items"], rs, cfg["dot_includes"])
     return {"property": PID, "seed": seed, "world": world, "cfg": cfg,
             "schedule": {"root_alias": rs.random() < 0.3,
+                         # the API allows a code base made of several listed directories
+                         "multi_dir": rs.sample(["d1", "d2", "inc1", "inc2", "d1/inc"], rs.randint(2, 4)) if rs.random() < 0.2 else None,
                          "rp_evict": "all" if rs.random() < 0.3 else sorted(rs.sample(range(60), 4)),
                          "cli": rs.random() < 0.5}}
 
@@ -166,8 +168,16 @@ def execute(case, scratch):
             stats["faults"]["root_alias"] = 1
         spec = core.api_spec(world, top)
         spec.update(kw)
+        specc = core.api_spec(cw, topc)
+        if sched.get("multi_dir") and not kw:
+            dirs = [d for d in sched["multi_dir"] if os.path.isdir(os.path.join(top, world["root"], d))
+                    and os.path.isdir(os.path.join(topc, cw["root"], d))]
+            if len(dirs) >= 2:
+                spec["codebase_dirs"] = [os.path.join(top, world["root"], d) for d in dirs]
+                specc["codebase_dirs"] = [os.path.join(topc, cw["root"], d) for d in dirs]
+                stats["faults"]["multi_directory_codebase"] = 1
         od = runners.run_fresh("api_run", spec)["obs"][0]
-        oc = core.run_api(cw, topc)["obs"][0]
+        oc = runners.run_fresh("api_run", specc)["obs"][0]
         stats["variants"] += 2
         if oc["exc"]:
             return {"verdict": "discard", "detail": "canonical world raises", "stats": stats}
@@ -215,12 +225,15 @@ def execute(case, scratch):
                 paths.append(os.path.join(lp, "outfile.c"))
                 want.append(False)
         mem = runners.run_fresh("membership", {"top": top, "root": root, "cwd": root,
+                                               "codebase_dirs": spec.get("codebase_dirs"),
                                                "excludes": world.get("excludes", []), "paths": paths})["in"]
         if mem != want:
             i = next(i for i, (a, b) in enumerate(zip(mem, want)) if a != b)
             return viol("membership_depends_on_alias", {"path": paths[i].replace(top, "@TOP@"), "got": mem[i], "expected": want[i]})
         # F7: evicting the canonicalisation cache is invisible
-        oe = core.run_api(world, top, rp_evict=sched.get("rp_evict"))
+        espec = dict(spec)
+        espec["rp_evict"] = sched.get("rp_evict")
+        oe = runners.run_fresh("api_run", espec)
         stats["variants"] += 1
         stats["faults"]["realpath_cache_eviction"] = oe["seam_stats"]["realpath_evictions"]
         oe = oe["obs"][0]
